@@ -31,7 +31,7 @@ LEVEL = "exploration"
 RULE = (
     "case = {hierarchy, rows, queries}: hierarchy kind in single/joined/mixed/concrete, 1-8 classes as a parent-index tree (depth<=3, "
     "width<=3), per-class abstract flag, extra columns drawn from a 6-name pool (unique along a root-to-class path, shared between "
-    "siblings/cousins), polymorphic_load None/inline/selectin, discriminator str/int via column / attribute name / CASE expression, "
+    "siblings/cousins), polymorphic_load None/inline/selectin, optional Mapper.with_polymorphic='*' on the base, discriminator str/int via column / attribute name / CASE expression, "
     "concrete root table/abstract/plain and per-intermediate own polymorphic_union, optional referencing entity; 0-12 rows (drawn "
     "distinct PKs, class index modulo the instantiable classes, values incl. NULL) inserted by raw Core INSERT; every class is queried "
     "with select(Q) plus 0-10 drawn variants. Non-trivial: hierarchy depth>=2, rows in >=3 distinct classes, and a query at a "
@@ -43,7 +43,7 @@ ASSUMPTIONS = [
     "column names are unique along a root-to-class path; the same name may recur only on classes that are not ancestor/descendant of each other (single-table siblings share the column via use_existing_column as documented)",
     "concrete inheritance per inheritance.rst: a class without its own polymorphic_union queries non-polymorphically (only its own table, instances of that class); query-time with_polymorphic on concrete classes only re-uses the mapper-configured selectable ('*', optionally aliased, never flat); no relationships / of_type / selectin_polymorphic / polymorphic_load with concrete",
     "only the root of a concrete hierarchy may be abstract (mapped directly to the polymorphic_union)",
-    "loadedness is asserted only where documented: columns of Q and its ancestors; classes covered by with_polymorphic (spec closed upwards, as Mapper._mappers_from_spec does); the class's own columns for selectin_polymorphic(Q, [.. C ..]) / polymorphic_load='selectin' on C; polymorphic_load='inline' on C when querying C's immediate parent",
+    "loadedness is asserted only where documented: columns of Q and its ancestors; classes covered by with_polymorphic (spec closed upwards, as Mapper._mappers_from_spec does); the class's own columns for selectin_polymorphic(Q, [.. C ..]) / polymorphic_load='selectin' on C; polymorphic_load='inline' on C when querying C's immediate parent; everything when the base has Mapper.with_polymorphic='*' and the base is queried",
     "relationship from the referencing entity targets the root class (the class owning the FK column), narrowed with of_type",
     "known finding excluded by construction: CASE-expression polymorphic_on + query at a non-root class mapped to a JOIN (joined/mixed) loads sub-subclass rows as the queried class",
 ]
@@ -108,6 +108,8 @@ def _must_be_loaded(cfg, sh, q, c, eager):
     must |= eager.get("incl", set()) & set(sh["path"][c])
     if c in eager.get("sip", ()):
         must.add(c)
+    if cfg["wpm"] and q == 0 and eager.get("mapper") and not eager.get("explicit_wp"):
+        must |= set(sh["path"][c])  # Mapper.with_polymorphic="*" on the base: all sub-tables are part of the default SELECT
     if eager.get("mapper") and c != q and c in sh["desc"][q]:
         if cl[c]["load"] == "selectin":
             must.add(c)
@@ -422,6 +424,8 @@ def check_hier(case, ctx):
             classes.add("concrete-intermediate-pjoin")
     if cfg["ref"]:
         classes.add("ref-entity")
+    if cfg["wpm"]:
+        classes.add("mapper-with_polymorphic-star")
     if b.warnings:
         ctx.info("build-warnings", 1)
         raise HarnessError(f"generated mapping emits warnings (domain must exclude it): {b.warnings[:3]} cfg={cfg}")
@@ -517,6 +521,7 @@ def _cases(draw):
         "on": draw(st.sampled_from(["col", "col", "name", "expr"])),
         "croot": draw(st.sampled_from(["table", "table", "abstract", "abstract", "plain"])),
         "ref": draw(st.booleans()),
+        "wpm": draw(st.integers(0, 5)) == 0,
         "classes": classes,
     }
     size = draw(st.sampled_from([0, 1, 3, 5, 6, 8, 8, 10, 10, 12, 12, 12]))
